@@ -324,3 +324,150 @@ func genSshArgv() string {
 	b.WriteString("\nend Scrapli.Gen.SshArgv\n")
 	return b.String()
 }
+
+// ---- SshAuth.lean: how openBase (transport/standard.go) builds the list of auth methods ----
+//
+// Facts: every write to `authMethods` in source order ("define" for the := declaration,
+// "append-self" for `authMethods = append(authMethods, …)`, "assign-other" for anything else), the
+// guarded appends (condition text, ssh.<Constructor> names appended, in order), and whether the
+// client config's Auth field is that variable.
+
+func init() { extraGenerators["SshAuth.lean"] = genSshAuth }
+
+func c14ExprText(e ast.Expr) string {
+	switch x := e.(type) {
+	case *ast.BasicLit:
+		return x.Value
+	case *ast.ParenExpr:
+		return "(" + c14ExprText(x.X) + ")"
+	case *ast.UnaryExpr:
+		return x.Op.String() + c14ExprText(x.X)
+	case *ast.BinaryExpr:
+		return c14ExprText(x.X) + " " + x.Op.String() + " " + c14ExprText(x.Y)
+	case *ast.CallExpr:
+		args := make([]string, len(x.Args))
+		for i, a := range x.Args {
+			args[i] = c14ExprText(a)
+		}
+		return c14ExprText(x.Fun) + "(" + strings.Join(args, ", ") + ")"
+	}
+	if p := selPath(e); p != nil {
+		return strings.Join(p, ".")
+	}
+	return "?"
+}
+
+func genSshAuth() string {
+	var b strings.Builder
+	b.WriteString("-- GENERATED by go/cmd/extract (gen_c14.go) from transport/standard.go; do not edit.\n")
+	b.WriteString("import ScrapliModel.Bytes\nnamespace Scrapli.Gen.SshAuth\nopen Scrapli\n\n")
+	files := parseDir(filepath.Join(*repo, "transport"))
+	var fd *ast.FuncDecl
+	for _, fn := range sortedNames(files) {
+		for _, d := range files[fn].Decls {
+			if f, ok := d.(*ast.FuncDecl); ok && f.Name.Name == "openBase" && f.Recv != nil && f.Body != nil {
+				fd = f
+			}
+		}
+	}
+	var writes []string
+	var appends []string
+	used := false
+	const v = "authMethods"
+	isV := func(e ast.Expr) bool { id, ok := e.(*ast.Ident); return ok && id.Name == v }
+	var walk func(stmts []ast.Stmt, cond string)
+	handleAssign := func(x *ast.AssignStmt, cond string) {
+		for i, l := range x.Lhs {
+			if !isV(l) {
+				continue
+			}
+			if x.Tok == token.DEFINE {
+				writes = append(writes, "define")
+				continue
+			}
+			kind := "assign-other"
+			if i < len(x.Rhs) && x.Tok == token.ASSIGN {
+				if c, ok := isCall(x.Rhs[i], "", "append"); ok && len(c.Args) >= 1 && isV(c.Args[0]) && !c.Ellipsis.IsValid() {
+					kind = "append-self"
+					var names []string
+					for _, a := range c.Args[1:] {
+						n := "?"
+						if ce, ok := a.(*ast.CallExpr); ok {
+							if p := selPath(ce.Fun); len(p) == 2 && p[0] == "ssh" {
+								n = p[1]
+							}
+						}
+						names = append(names, leanBytes(n))
+					}
+					appends = append(appends, "("+leanBytes(cond)+", ["+strings.Join(names, ", ")+"])")
+				}
+			}
+			writes = append(writes, kind)
+		}
+	}
+	walk = func(stmts []ast.Stmt, cond string) {
+		for _, st := range stmts {
+			switch x := st.(type) {
+			case *ast.AssignStmt:
+				handleAssign(x, cond)
+			case *ast.DeclStmt:
+				if gd, ok := x.Decl.(*ast.GenDecl); ok {
+					for _, sp := range gd.Specs {
+						if vs, ok := sp.(*ast.ValueSpec); ok {
+							for _, n := range vs.Names {
+								if n.Name == v {
+									writes = append(writes, "define")
+								}
+							}
+						}
+					}
+				}
+			case *ast.IfStmt:
+				c := c14ExprText(x.Cond)
+				if cond != "" {
+					c = cond + " && " + c
+				}
+				walk(x.Body.List, c)
+				switch el := x.Else.(type) {
+				case *ast.BlockStmt:
+					walk(el.List, "!("+c+")")
+				case *ast.IfStmt:
+					walk([]ast.Stmt{el}, "!("+c+")")
+				}
+			case *ast.BlockStmt:
+				walk(x.List, cond)
+			case *ast.ForStmt:
+				walk(x.Body.List, cond+" (loop)")
+			case *ast.RangeStmt:
+				walk(x.Body.List, cond+" (loop)")
+			case *ast.SwitchStmt:
+				for _, cc := range x.Body.List {
+					if cl, ok := cc.(*ast.CaseClause); ok {
+						walk(cl.Body, cond+" (switch)")
+					}
+				}
+			}
+		}
+	}
+	if fd != nil {
+		walk(fd.Body.List, "")
+		ast.Inspect(fd, func(n ast.Node) bool {
+			if kv, ok := n.(*ast.KeyValueExpr); ok {
+				if id, ok := kv.Key.(*ast.Ident); ok && id.Name == "Auth" && isV(kv.Value) {
+					used = true
+				}
+			}
+			return true
+		})
+	}
+	ws := make([]string, len(writes))
+	for i, w := range writes {
+		ws[i] = leanBytes(w)
+	}
+	fmt.Fprintf(&b, "/-- `openBase` found in the source -/\ndef found : Bool := %v\n\n", fd != nil)
+	fmt.Fprintf(&b, "/-- every write to `authMethods` in `openBase`, in source order -/\ndef authWrites : List Bytes := [%s]\n\n", strings.Join(ws, ", "))
+	fmt.Fprintf(&b, "/-- the guarded appends: (condition, ssh.<constructor> names appended) in source order -/\ndef authAppends : List (Bytes × List Bytes) := [%s]\n\n", strings.Join(appends, ", "))
+	fmt.Fprintf(&b, "/-- the client configuration's `Auth` field is `authMethods` -/\ndef authUsed : Bool := %v\n", used)
+	b.WriteString("\nend Scrapli.Gen.SshAuth\n")
+	return b.String()
+}
